@@ -239,6 +239,16 @@ def _octahedral_from_coords(
     a3, a5 = cis_atoms0
     a4, a6 = cis_atoms1
 
+    # Three planar groups alone do not make an octahedron (the rectangular
+    # faces of a trigonal prism are planar as well): the three pairs have to
+    # be opposite to each other seen from the centre, otherwise the descriptor
+    # would depend on which two groups happen to come first.
+    trans_pairs = np.array(
+        [[a1, 0, a2], [a3, 0, a5], [a4, 0, a6]], dtype=np.int8
+    )
+    if np.any(angle_from_coords(coords[trans_pairs]) < 135.0):
+        return None
+
     parity = int(handedness(coords[[a1, a3, a5, a4]]))
     assert parity == 1 or parity == -1
     return Octahedral(
